@@ -320,6 +320,12 @@ func (f *fx) loopModKeys(li *loopInfo) (keys map[string]bool, all bool) {
 						if _, ok := f.e.keySorts[rk]; ok {
 							keys[rk] = true
 						}
+						if n := f.siteOrdinal(callee, x.Pos()); n >= 0 {
+							sk := fmt.Sprintf("E:sret:%s#%d:%d", callee, n, i)
+							if _, ok := f.e.keySorts[sk]; ok {
+								keys[sk] = true
+							}
+						}
 					}
 				}
 				if k := f.visitsKey(x.Common(), x.Pos()); k != "" {
@@ -1024,14 +1030,14 @@ func (f *fx) binop(op token.Token, xv, yv Val, t types.Type, pos token.Pos, xs, 
 		case token.SUB:
 			return T("Int", "(- %s %s)", a.S, b.S)
 		case token.MUL:
-			return T("Int", "(* %s %s)", a.S, b.S)
+			return mulTerm(f.sc, a, b)
 		case token.QUO, token.REM:
 			f.crash("div-by-zero", T("Bool", "(not (= %s 0))", b.S), pos)
 			fn := "godiv"
 			if op == token.REM {
 				fn = "gorem"
 			}
-			f.sc.declareOnce("godiv", "(declare-fun godiv (Int Int) Int)\n(declare-fun gorem (Int Int) Int)\n(assert (forall ((a Int) (b Int)) (! (=> (and (>= a 0) (> b 0)) (= (godiv a b) (div a b))) :pattern ((godiv a b)))))\n(assert (forall ((a Int) (b Int)) (! (=> (and (>= a 0) (> b 0)) (= (gorem a b) (mod a b))) :pattern ((gorem a b)))))")
+			declareGoDiv(f.sc)
 			return app("Int", fn, a, b)
 		case token.LSS:
 			return T("Bool", "(< %s %s)", a.S, b.S)
@@ -1289,4 +1295,36 @@ func isRangeIndexPhi(phi *ssa.Phi) bool {
 	}
 	one, ok := b.Y.(*ssa.Const)
 	return ok && one.Value != nil && one.Value.ExactString() == "1"
+}
+
+// mulTerm: a product with a numeral factor stays linear; a product of two symbolic factors is the
+// uninterpreted gomul (commutative), so that the solvers are never handed nonlinear integer arithmetic.
+func mulTerm(sc *Script, a, b Term) Term {
+	if isNumeral(a.S) || isNumeral(b.S) {
+		return T("Int", "(* %s %s)", a.S, b.S)
+	}
+	sc.declareOnce("gomul", "(declare-fun gomul (Int Int) Int)\n(assert (forall ((a Int) (b Int)) (! (= (gomul a b) (gomul b a)) :pattern ((gomul a b)))))")
+	return app("Int", "gomul", a, b)
+}
+
+func isNumeral(s string) bool {
+	s = strings.TrimSpace(s)
+	if strings.HasPrefix(s, "(- ") && strings.HasSuffix(s, ")") {
+		s = strings.TrimSpace(s[3 : len(s)-1])
+	}
+	if s == "" {
+		return false
+	}
+	for _, c := range s {
+		if c < '0' || c > '9' {
+			return false
+		}
+	}
+	return true
+}
+
+// declareGoDiv: Go's truncating quotient and remainder, defined on the non-negative quadrant only
+// (elsewhere they are uninterpreted: nothing is proved from a sign case the axioms do not cover).
+func declareGoDiv(sc *Script) {
+	sc.declareOnce("godiv", "(declare-fun godiv (Int Int) Int)\n(declare-fun gorem (Int Int) Int)\n(assert (forall ((a Int) (b Int)) (! (=> (and (>= a 0) (> b 0)) (= (godiv a b) (div a b))) :pattern ((godiv a b)))))\n(assert (forall ((a Int) (b Int)) (! (=> (and (>= a 0) (> b 0)) (= (gorem a b) (mod a b))) :pattern ((gorem a b)))))")
 }
